@@ -60,8 +60,14 @@ def sketch(draw, loop_button=False):
             decl_loop.append(d)
         else:
             lines.append(d)
+    ppins = [POT_PINS[i][1] for i in range(npot)]
     for i in range(npot):
         lines.append(f"pot{i} = Potentiometer('{POT_PINS[i][0]}')")
+    if npot == 1 and draw(st.integers(0, 2)) == 0:
+        # the name is re-bound to another analogue pin before the main loop: later reads sample the pin of the latest declaration
+        lines += ["mon.write('p0:' + str(pot0.read()))"] if draw(st.booleans()) else []
+        lines.append(f"pot0 = Potentiometer('{POT_PINS[1][0]}')")
+        ppins[0] = POT_PINS[1][1]
     for i in range(nus):
         lines.append(f"us{i} = Ultrasonic({US_PINS[i][0]}, {US_PINS[i][1]})")
     use_helper = draw(st.booleans())
@@ -93,7 +99,7 @@ def sketch(draw, loop_button=False):
     if not body:
         body = ["sleep(1)"]
     lines += ["while True:"] + ["    " + b for b in body]
-    return {"src": "\n".join(lines) + "\n", "nb": nb, "npot": npot, "nus": nus, "cb": sorted(cb), "loop_button": loop_button, "bpins": bpins}
+    return {"src": "\n".join(lines) + "\n", "nb": nb, "npot": npot, "nus": nus, "cb": sorted(cb), "loop_button": loop_button, "bpins": bpins, "ppins": ppins}
 
 
 @st.composite
@@ -214,7 +220,7 @@ def model_check(sk, tp, n, trace):
                     break
     # ---------------- potentiometers: every read is one analogRead whose value is printed
     for i in range(sk["npot"]):
-        pin = POT_PINS[i][1]
+        pin = (sk.get("ppins") or [p for _, p in POT_PINS])[i]
         for kpass, ev in enumerate(loops):
             pending = None
             for _, k, a in ev:
